@@ -44,6 +44,26 @@ def strategy(tier):
     return st.one_of(strict, wild)
 
 
+def crowded(case, window=25):
+    """ input-side signature of C01-rare-tail: some transcript carries >= 3 small records
+    within `window` nt of one another, at least one of them an indel or MNV, or a circRNA of
+    fewer than 30 nt is present """
+    if any(r['kind'] == 'circ' and sum(b - a for a, b in r['frags']) < 30
+            for r in case['records']):
+        return True
+    by_tx = {}
+    for r in case['records']:
+        if r['kind'] == 'small':
+            by_tx.setdefault(r['tx'], []).append(r)
+    for recs in by_tx.values():
+        recs = sorted(recs, key=lambda r: r['g'])
+        for i in range(len(recs) - 2):
+            grp = [r for r in recs[i:] if r['g'] - recs[i]['g'] <= window]
+            if len(grp) >= 3 and any(len(r['ref']) != 1 or len(r['alt']) != 1 for r in grp):
+                return True
+    return False
+
+
 def tolerated(case, out, bucket):
     """ open findings (known_findings.json) by signature """
     if bucket.startswith('crash:ValueError@svgraph/ThreeFrameTVG.py:expand_alignments') \
@@ -57,10 +77,9 @@ def tolerated(case, out, bucket):
     if dom and (bucket.startswith('missing:') or bucket.startswith('knobs-changed')
             or bucket.startswith('crash:')):
         return dom[0]
-    if (bucket.startswith('missing:') or bucket.startswith('knobs-changed')) and any(
-            r['kind'] == 'circ' and sum(b - a for a, b in r['frags']) < 30
-            for r in case['records']):
-        # circRNAs of fewer than 30 nt (not generated any more; pinned witness only)
+    if (bucket.startswith('missing:') or bucket.startswith('knobs-changed')) and \
+            not case.get('planted') and crowded(case):
+        # rate-capped: the harness turns more than max_hits_per_run of these into a violation
         return 'C01-rare-tail'
     return None
 
